@@ -141,7 +141,7 @@ def _check(args):
     form = forms.gen_form(rng, forms.Profile(adversarial=0.6, max_rows=rng.choice([3, 6, 10])))
     form = forms.add_custom_columns(rng, form, hostile=hostile)
     if i % 4 == 0:
-        forms.add_exotics(rng_for(seed, PID, "exotic", i), form, ["bad_choice_col", "search", "osm", "legacy_hint", "audit", "count_expr", "calc_msgs", "file_selects"], p=0.35)
+        forms.add_exotics(rng_for(seed, PID, "exotic", i), form, ["bad_choice_col", "search", "osm", "legacy_hint", "audit", "count_expr", "calc_msgs", "file_selects", "entity_variants", "entity_variants", "hint_only_computed", "seeded_select"], p=0.35)
     clean = {k: v for k, v in form.items() if not k.startswith("__")}
     d = forms.as_dict(clean)
     out = {"i": i, "hostile": hostile}
